@@ -178,6 +178,12 @@ def emission_hook(extra=None):
             else:
                 pieces = [("unknown", l)]
             st.events.append(("emit", tuple(pieces), (call.fr.body.id, call.fr.bb)))
+            # what is known about the numeric placeholders AT THE TIME of the emission (a later loop-head widening may
+            # re-use the atoms the value mentions for the next iteration; facts about them are dropped then)
+            los = tuple((1 if interp.decide_le(st, ("int", 1), x[2]) else interp.lower_const(st, x[2])) if x[0] == "arg" and isinstance(x[2], tuple) and x[2] and x[2][0] in ("int", "term") else None
+                        for x in pieces)
+            if any(v is not None for v in los):
+                st.events.append(("emit-lo", los))
         elif p == "Write::write_all":
             t = call.deref(call.args[1])
             st.events.append(("emit", (("raw", tree_leaf(t), t.get((("$len",),))),), (call.fr.body.id, call.fr.bb)))
